@@ -634,6 +634,13 @@ def install(T: Theory):
             return {k: _map(interp, f, x, *sub(i, k), is_leaf=is_leaf) for i, (k, x) in enumerate(tree.items())}
         return base_map(interp, f, tree, *rest, is_leaf=is_leaf)
 
+    @T.ext('jax.numpy.reshape')
+    def _reshape(interp, x, shape, *a, **k):
+        """jnp.reshape(x, shape): the functional spelling of x.reshape(shape)"""
+        if a or k:
+            raise Unsupported('jnp.reshape with order / extra arguments')
+        return interp.call(interp.getattr(x, 'reshape'), [shape], {})
+
     @T.ext('jax.numpy.zeros')
     def _zeros(interp, shape, dtype=None):
         if not is_intlike(shape):
